@@ -3,13 +3,13 @@ from .. import gen, progx
 
 ID = "C05"
 BUILDS = ("pure", "compiled")
-RULE = "every base program up to size n with every placement of <=k deviations (third kind, item error/unset, flush bodies that raise/skip/create items, items never awaited, synchronous nested waits, out-of-band item.value(), shared tasks), under steered priorities (every total order at every decision), the default (0,len) priority and an all-equal user override, both builds; non-trivial = program with a >=2-way flush decision"
+RULE = "every base program up to size n with every placement of <=k deviations (third kind, item error/unset, flush bodies that raise/skip/create items/synchronously re-enter the scheduler, items never awaited, synchronous nested waits, out-of-band item.value(), shared tasks), under steered priorities (every total order at every decision), the default (0,len) priority and an all-equal user override, both builds; non-trivial = program with a >=2-way flush decision"
 EXPLANATION = "stateless DFS over every flush schedule of every program on the real scheduler (both builds); each execution checked by online monitors and lock-step reference models (R1 sequential evaluator, R2 maximal-batching machine, R3 context model)"
 ASSUMPTIONS = [
     "values are opaque tokens; task bodies have no side effects besides the harness record",
     "exhaustive only within the alphabet and bounds listed in coverage.bounds",
 ]
-MENU = ["item:c", "item:err", "item:unset", "flush:raise", "flush:raiseB", "flush:new", "flush:setraise", "ins:mkitem", "ins:sync", "ins:iv", "leaf:re", "leaf:sh", "wrap:try"]
+MENU = ["item:c", "item:err", "item:unset", "flush:raise", "flush:raiseB", "flush:new", "flush:setraise", "flush:nested", "ins:mkitem", "ins:sync", "ins:iv", "leaf:re", "leaf:sh", "wrap:try"]
 CATS = ["flush-twice", "flush-empty", "flush-flushed", "flush-active", "flush-after-complete", "not-max-priority", "steer-ignored", "events-bracket", "item-computed-twice", "item-outside-flush", "outcome-mismatch", "r2-menu", "hang", "worker-died"]
 _ALLP = {"prio": ["steer", "default", "equal"]}
 LADDER = {"quick": [(5, 0, ["call"], _ALLP), (4, 1, ["call"], _ALLP), (3, 2, ["call"])],
